@@ -319,6 +319,51 @@ pub fn run(o: &Opts) {
             }
         }
     }
+    // error paths and implied exchanges whose outcome must not depend on map order
+    if !replay {
+        let n_fix = if o.thorough { 24 } else { 8 };
+        let comm = ["AAPL", "CHF", "EUR", "JPY", "USD"];
+        for k in 0..n_fix {
+            let a = comm[k % 5];
+            let b = comm[(k + 1 + r.below(3) as usize) % 5];
+            if a == b {
+                continue;
+            }
+            let v1 = 1000 + r.below(900);
+            let v2 = v1 + 50 + r.below(40) * 3 + 1; // ratio without a finite decimal expansion, usually
+            let scenarios = [
+                // several commodities that all cancel inside one posting expression (ill-typed)
+                (format!("2020/01/05 t\n    Assets:Bank  (10 {a} - 10 {a} + 5 {b} - 5 {b})\n    Equity:Opening\n", a = a, b = b), vec!["register", "balance"], None),
+                // implied exchange with a non-terminating ratio, then converted both ways
+                (format!("2020/01/05 t\n    Assets:Bank  -{v1}.00 {a}\n    Assets:Cash  {v2}.00 {b}\n\n2020/01/06 u\n    Assets:Cash  4000 {a}\n    Equity:Opening\n", a = a, b = b, v1 = v1, v2 = v2), vec!["balance"], Some((a, b))),
+                // three-commodity residual without an omitted amount
+                (format!("2020/01/05 t\n    Assets:Bank  50 {a}\n    Assets:Cash  20 {b}\n    Income:Job  -60 {c}\n", a = a, b = b, c = comm[(k + 4) % 5]), vec!["balance", "register"], None),
+            ];
+            for (si, (ledger, cmds, conv)) in scenarios.iter().enumerate() {
+                let lp = scratch.write(&format!("fix{}_{}/l.ledger", k, si), ledger);
+                let mut argsets: Vec<Vec<String>> = cmds.iter().map(|c| vec![c.to_string(), lp.to_string_lossy().to_string()]).collect();
+                if let Some((x, y)) = conv {
+                    for t in [x, y] {
+                        argsets.push(vec!["balance".to_string(), lp.to_string_lossy().to_string(), "-X".to_string(), t.to_string(), "--now".to_string(), "2020-02-01".to_string()]);
+                    }
+                }
+                for args in argsets {
+                    let mut seen: HashSet<(i32, String, String)> = HashSet::new();
+                    let mut code = 0;
+                    for _ in 0..n_runs.max(16) {
+                        let out = run_bin(&bin, &args);
+                        code = out.code;
+                        seen.insert((out.code, out.stdout, out.stderr));
+                    }
+                    st.eval(&(ledger.clone(), args.clone()), true);
+                    st.count(&format!("cmd:order-sensitive-scenario{}:{}", si, if code == 0 { "ok" } else { "fail" }));
+                    let rep = json!({"property": "C13", "ledger": ledger, "args": args, "distinct_outputs": seen.len(),
+                                     "reproduce": "run the command repeatedly in fresh processes and diff"});
+                    sh.push(format!("C [] [R {} {} OOpaque]", seen.len(), coq::bool_(code == 0)), vec![rep]);
+                }
+            }
+        }
+    }
     // conversions: equally good chains with different rates, and several missing rates
     if !replay {
         let n_conv = if o.thorough { 40 } else { 10 };
